@@ -54,14 +54,43 @@ func c13Run(x *core.Ctx) {
 			x.Do(c, func() { c13Check(x, c) })
 		case 1:
 			items := tsys.Schema(r, &tsys.GenOpts{Descs: true, Hostile: i%2 == 1, Extensions: true, ExtOnly: true, Small: i%4 == 1})
+			if i%9 < 3 {
+				items = c13RedefineBuiltin(r, items)
+			}
 			c := core.NewCase("doc", "src", rn.RenderSDoc(&model.SDoc{Items: items}))
 			x.Do(c, func() { c13Check(x, c) })
 		default:
 			items := tsys.Schema(r, &tsys.GenOpts{Descs: true, Hostile: i%2 == 0, Extensions: i%4 < 2, ExtOnly: i%8 == 2, Small: i%5 == 0})
+			if i%9 < 3 {
+				items = c13RedefineBuiltin(r, items)
+			}
 			c := core.NewCase("schema", "src", rn.RenderSDoc(&model.SDoc{Items: items}))
 			x.Do(c, func() { c13Check(x, c) })
 		}
 	}
+}
+
+// c13RedefineBuiltin appends a definition of one of the specified directives written in the user's own source (the loader
+// allows it and the user's definition wins); the extra optional argument keeps every existing application valid and makes
+// the definition distinguishable from the prelude's.
+func c13RedefineBuiltin(r *core.Rand, items []*model.Item) []*model.Item {
+	str := func(nonNull bool) *model.Type { return &model.Type{Name: "String", NonNull: nonNull} }
+	var it *model.Item
+	switch r.Intn(3) {
+	case 0:
+		it = &model.Item{Kind: "directive", Name: "deprecated", Locations: []string{"FIELD_DEFINITION", "ARGUMENT_DEFINITION", "INPUT_FIELD_DEFINITION", "ENUM_VALUE"},
+			Args: []*model.ArgDef{{Name: "reason", Type: str(false), Default: &model.Value{Kind: model.VString, Raw: "No longer supported"}}, {Name: "since", Type: str(false)}}}
+	case 1:
+		it = &model.Item{Kind: "directive", Name: "specifiedBy", Locations: []string{"SCALAR"}, Args: []*model.ArgDef{{Name: "url", Type: str(true)}, {Name: "note", Type: str(false)}}}
+	default:
+		it = &model.Item{Kind: "directive", Name: "oneOf", Locations: []string{"INPUT_OBJECT"}, Args: []*model.ArgDef{{Name: "note", Type: str(false)}}}
+	}
+	if r.Bool() {
+		it.HasDesc, it.Desc = true, "redefined in the user's source"
+	}
+	at := r.Intn(len(items) + 1)
+	out := append([]*model.Item{}, items[:at]...)
+	return append(append(out, it), items[at:]...)
 }
 
 func fmtSchemaDoc(doc *ast.SchemaDocument, opts []formatter.FormatterOption) string {
